@@ -503,3 +503,40 @@ def c08_r4_sem(F, R):
             R.bad(name, f"MathOp::{name}: " + "; ".join(problems), f["sp"])
         else:
             R.ok(name, detail=f"{name}: {prim}{'/' + view if 'view' in spec else ''}({', '.join(map(str, ops[:2]))})" + (f", zero divisor -> {spec['zero_divisor']}" if "zero_divisor" in spec else ""))
+
+
+@rule("C17", "C17.c.no-wrapping-on-literals", floor=2)
+def c17_nowrap(F, R):
+    """the literal parsers never apply wrap-around arithmetic to a parsed magnitude (an out-of-range literal must be rejected, not wrapped to another number)"""
+    n = 0
+    for p in sorted(_imm_fns(F)):
+        f = F.fns[p]
+        B = Body(f)
+        n += 1
+        hits = [(bi, t) for bi, t in B.calls() if re.search(r"<impl (i|u)\d+>::(wrapping|overflowing)_(add|sub|mul|neg|shl|abs|pow)$", t.get("resolved") or t.get("callee") or "")]
+        name = ("CsrImm" if "CsrImm" in p else "Imm") + "::" + short(p)
+        if not hits:
+            R.ok(f"{name}", detail=f"{name}: no wrapping arithmetic")
+        for bi, t in hits:
+            c = (t.get("resolved") or t.get("callee")).split("::")[-1]
+            R.bad(f"{name}|{c}", f"{name} applies `{c}` to a parsed literal: a magnitude that does not fit (e.g. -0x80000001) is silently wrapped to a different number instead of being rejected", t["sp"])
+    if n < 2:
+        R.bad("coverage", "literal parsers not found")
+
+
+@rule("C17", "C17.d.decimal-magnitude-width", floor=1)
+def c17_decwidth(F, R):
+    """the decimal branch parses the magnitude in a type that can hold 2^31, so that -2147483648 (the most negative 32-bit value) is representable"""
+    p = F.method("riscv_analysis::parser::imm::Imm", "from_str", trait="FromStr")
+    f = F.fn(p)
+    decs = [m for m in walk(f["hir"]["value"], pats=False) if m.get("k") == "MethodCall" and m["name"] == "parse"]
+    if len(decs) != 1:
+        R.bad("shape", f"UNEXTRACTABLE: expected one decimal `parse`, found {len(decs)}", f["sp"])
+        return
+    t = (decs[0].get("gargs") or ["?"])[-1]
+    tr = ty_range(t)
+    # the sign was stripped before (strip_prefix('-')): the parsed magnitude is >= 0
+    if tr and tr[1] >= 2 ** 31:
+        R.ok("decimal", detail=f"decimal magnitude parsed as {t}")
+    else:
+        R.bad("decimal", f"the decimal magnitude is parsed as `{t}` (max {tr[1] if tr else '?'}) after the sign was stripped: 2147483648 does not fit, so `-2147483648` is rejected although it is a 32-bit value", loc(decs[0]))
